@@ -161,6 +161,63 @@ impl<'a> Tr<'a> {
             Expr::Binary(b) if is_compound(&b.op) => self.assign_k(&b.left, Some(&b.op), &b.right, env, e, k),
             Expr::Macro(m) if is_skipped_macro(&m.mac) => k(self, unit()),
             Expr::Macro(m) if is_panic_macro(&m.mac) => self.panic_finish(e, env),
+            Expr::MethodCall(m) if m.method == "for_each" && m.args.len() == 1 && matches!(&*m.receiver, Expr::MethodCall(r) if r.method == "iter_mut" && r.args.is_empty()) && matches!(&m.args[0], Expr::Closure(c) if c.inputs.len() == 1) => {
+                // `array_place.iter_mut().for_each(|v| body)`: unrolled; in body `*v` is the i-th component of the place
+                let place: &Expr = match &*m.receiver {
+                    Expr::MethodCall(r) => &r.receiver,
+                    _ => unreachable!(),
+                };
+                let cl = match &m.args[0] {
+                    Expr::Closure(c) => c.clone(),
+                    _ => unreachable!(),
+                };
+                let pv = self.pure(place, env, None)?;
+                let n = match &pv.ty {
+                    Ty::Tuple(ts) => ts.len(),
+                    t => return Err(unsupported(e, &format!("`iter_mut().for_each(..)` on a value of type {} (only an array of 2..8 elements)", t.show()))),
+                };
+                let pname = match &cl.inputs[0] {
+                    Pat::Ident(i) if i.by_ref.is_none() && i.subpat.is_none() => i.ident.to_string(),
+                    _ => return Err(unsupported(e, "closure parameter of `for_each`")),
+                };
+                struct Sub {
+                    name: String,
+                    place: Expr,
+                    bad: bool,
+                }
+                impl syn::visit_mut::VisitMut for Sub {
+                    fn visit_expr_mut(&mut self, x: &mut Expr) {
+                        if let Expr::Unary(u) = x {
+                            if matches!(u.op, UnOp::Deref(_)) {
+                                if let Expr::Path(p) = &*u.expr {
+                                    if p.path.is_ident(&self.name) {
+                                        *x = self.place.clone();
+                                        return;
+                                    }
+                                }
+                            }
+                        }
+                        if let Expr::Path(p) = x {
+                            if p.path.is_ident(&self.name) {
+                                self.bad = true; // the reference itself (not `*v`) is used
+                            }
+                        }
+                        syn::visit_mut::visit_expr_mut(self, x);
+                    }
+                }
+                let mut stmts: Vec<Stmt> = vec![];
+                for i in 0..n {
+                    let comp: Expr = Expr::Field(ExprField { attrs: vec![], base: Box::new(place.clone()), dot_token: Default::default(), member: Member::Unnamed(Index { index: i as u32, span: proc_macro2::Span::call_site() }) });
+                    let mut body: Expr = (*cl.body).clone();
+                    let mut sv = Sub { name: pname.clone(), place: comp, bad: false };
+                    syn::visit_mut::VisitMut::visit_expr_mut(&mut sv, &mut body);
+                    if sv.bad {
+                        return Err(unsupported(e, "`for_each` closure that uses its parameter other than as `*v`"));
+                    }
+                    stmts.push(Stmt::Expr(body, Some(Default::default())));
+                }
+                self.stmts_k(&stmts, env, None, k)
+            }
             Expr::MethodCall(m) if m.method == "zip" && m.args.len() == 1 => {
                 // `a.zip(b)`: the list of pairs (List.combine); an iterator value with a configured `next` is first driven to
                 // the list it yields (fuel)
@@ -1293,6 +1350,18 @@ impl<'a> Tr<'a> {
                 } else {
                     Ok(format!("({}, {})", a.s, self.update(&b, &path[1..], new, at)?))
                 }
+            }
+            Ty::Tuple(ts) if ts.len() > 2 => {
+                // an n-tuple (array): rebuild it with component k updated
+                let kk: usize = fname.parse().map_err(|_| unsupported(at, "tuple field"))?;
+                if kk >= ts.len() {
+                    return Err(unsupported(at, "tuple index out of range"));
+                }
+                let names: Vec<String> = (0..ts.len()).map(|j| format!("u{}_", j)).collect();
+                let cur = Val { s: names[kk].clone(), ty: ts[kk].clone() };
+                let upd = self.update(&cur, &path[1..], new, at)?;
+                let out: Vec<String> = (0..ts.len()).map(|j| if j == kk { upd.clone() } else { names[j].clone() }).collect();
+                Ok(format!("(let '({}) := {} in ({}))", names.join(", "), base.s, out.join(", ")))
             }
             Ty::Range(t) | Ty::RangeIncl(t) if fname == "start" || fname == "end" => {
                 let a = Val { s: format!("(fst {})", base.s), ty: (**t).clone() };
